@@ -82,7 +82,7 @@ theorem C17_pad_equal (rel abs : Nat) (cellsEq : Mesh → Mesh → Bool) (pred :
     unfold extendSpaceDim; simp [hgd]
   have hrun : runComparison (domainEqual rel abs cellsEq) pred g g = (true, true) := by
     unfold runComparison domainEqual pointsEqual
-    simp only [hpts, hcells, beq_self_eq_true, Bool.and_self, if_true, findMatches_self]
+    simp only [hpts, hcells, beq_self_eq_true, Bool.and_self, if_true, findFieldMatches_self]
     simp only [List.all_map, Prod.mk.injEq, true_and]
     simp only [List.all_eq_true]
     intro x hx
